@@ -276,6 +276,7 @@ impl Family for Tree {
             let r = reg.route(&p);
             if (r == Routed::Fatal || r == Routed::Refused) && step + 1 < h.len() {
                 st.bump("pruned_duplicates");
+                st.skipped += 1;
                 return Ok(());
             }
         }
